@@ -247,6 +247,9 @@ def lex_run(name, defs, tier, seed, cfgs, maxlen, nchars, tlc_workers=8, livenes
             for (line, info), rep in zip(batch, replies):
                 m = meta_by_idx[info["d"]]
                 real = real_items(rep)
+                if "guard" in rep:
+                    add({"def": m["id"], "cfg": c, "kind": "guard_diff", "mode": info["mode"], "input": info["data"], "splits": info.get("splits"),
+                         "expected": "the same result whatever bytes lie next to the source in memory", "got": {"variant": rep["guard"], "with_neighbours": rep.get("guard_got", "")[:300]}, "why": "result depends on bytes outside the source", "src": m["src"]})
                 if rep.get("badslice"):
                     add({"def": m["id"], "cfg": c, "kind": "badslice", "mode": info["mode"], "input": info["data"], "splits": info.get("splits"),
                          "expected": "slice()==source[span()] and remainder()==source[span().end..]", "got": rep, "why": "accessor mismatch", "src": m["src"]})
